@@ -200,6 +200,44 @@ def h_peak(fac_peak):
     return h
 
 
+def h_snr(fac_snr):
+    """the summit acceptance statistic (compared with innerclip) on a 2x2 summit and on its negation"""
+    def h(c):
+        f = fac_snr(dict(core.BUILTINS, np=loader.NPProxy()))
+        vals = [[real('s_%d_%d' % (i, j)) for j in range(2)] for i in range(2)]
+        rms = real_np.empty((2, 2), dtype=object)
+        for i in range(2):
+            for j in range(2):
+                rms[i, j] = real('r_%d_%d' % (i, j))
+                c.assume(rms[i, j].e > 0)
+        # a single-sign summit (the tiny-island route hands the whole island over as one summit)
+        sgn = real('sgn')
+        c.assume(z3.Or(sgn.e == 1, sgn.e == -1))
+        for row in vals:
+            for v in row:
+                c.assume(v.e * sgn.e > 0)
+        data = real_np.array(vals, dtype=object)
+        ndata = real_np.array([[-v for v in row] for row in vals], dtype=object)
+        s1 = f(data, rms, data, 0, 2, 0, 2)
+        s2 = f(ndata, rms, ndata, 0, 2, 0, 2)
+        s1 = s1[0] if isinstance(s1, tuple) else s1
+        s2 = s2[0] if isinstance(s2, tuple) else s2
+        c.oblige('snr:the acceptance statistic of a summit equals that of its negation', core.lift(s1) == core.lift(s2))
+        c.oblige('snr:it is the largest |pixel / rms| of the summit', z3.And([core.lift(s1) >= z3.If(v.e >= 0, v.e, -v.e) / rms[i, j].e for i, row in enumerate(vals) for j, v in enumerate(row)]))
+        return dict()
+    return h
+
+
+def tiny_island_witness(sign):
+    """a five-pixel single-sign island with unequal pixels (the whole island is one summit)"""
+    data = real_np.full((3, 3), real_np.nan)
+    for (r, cc), v in {(0, 1): 4.2, (1, 0): 4.5, (1, 1): 8.0, (1, 2): 4.4, (2, 1): 4.1}.items():
+        data[r, cc] = sign * v
+    curve = real_np.zeros((3, 3))
+    curve[1, 1] = -sign
+    return dict(kind='selector', data=[[None if x != x else x for x in row] for row in data.tolist()], curve=curve.tolist(), outerclip=4.0, innerclip=5.0)
+
+
 def h_bounds(fac_b):
     def h(c):
         f = fac_b(dict(core.BUILTINS, np=loader.NPProxy()))
@@ -237,7 +275,7 @@ def replay_selector(w):
     finder = sfm.SourceFinder()
     finder.global_data.wcshelper = helper
     finder.global_data.psfhelper = helper
-    data = real_np.array(w['data'], dtype=float)
+    data = real_np.array([[real_np.nan if x is None else x for x in row] for row in w['data']], dtype=float)
     curve = real_np.array(w['curve'], dtype=float)
     rms = real_np.ones(data.shape)
 
@@ -370,6 +408,12 @@ def selectors(rep):
         rep.inconc('anchor-missing: sorted(summits, key=...) not found in estimate_lmfit_parinfo')
     plans = [(h_selector(fac_sel, flags_mod, +1), {}), (h_selector(fac_sel, flags_mod, -1), {}), (h_peak(fac_peak), {}), (h_bounds(fac_b), {})]
     names = ['selector+', 'selector-', 'peak', 'bounds']
+    try:
+        fac_snr, t4 = slicer.slice_function(F, 'estimate_lmfit_parinfo', targets=['snr'], params=['data', 'rmsimg', 'summit', 'xmin', 'xmax', 'ymin', 'ymax'], cls='SourceFinder', returns=['snr'], flatten_loops=True)
+        plans.append((h_snr(fac_snr), {}))
+        names.append('snr')
+    except slicer.AnchorMissing as e:
+        rep.inconc('K-selectors: anchor-missing %s' % e)
     results = core.explore_many(plans, workers=4)
     done = set()
     for nm, (st, res) in zip(names, results):
@@ -386,6 +430,15 @@ def selectors(rep):
                     w = dict(kind='selector', data=data, curve=curve, outerclip=float(m.get('outerclip', 1)), innerclip=max(float(m.get('outerclip', 1)), 1.0))
                     bad, cls, detail = replay_selector(w)
                     if rep.finding('C13/K-selectors/%s' % cls, w, detail, reproduced=bad) != 'not-reproduced':
+                        done.add(ob['name'])
+                elif ob['result'] == 'sat' and nm in ('snr', 'bounds', 'peak') and ob['name'] not in done:
+                    got = False
+                    for w in (tiny_island_witness(-1), tiny_island_witness(+1), two_summit_witness(-1), two_summit_witness(+1)):
+                        bad, cls, detail = replay_selector(w)
+                        if bad:
+                            got = True
+                            break
+                    if rep.finding('C13/K-selectors/%s:%s' % (nm, cls if got else ob['name'].split(':')[-1]), w if got else dict(kind=nm), detail if got else ob['name'], reproduced=got) != 'not-reproduced':
                         done.add(ob['name'])
                 elif ob['result'] == 'sat' and not nm.startswith('selector'):
                     rep.finding('C13/K-selectors/%s' % ob['name'].split(':')[-1], dict(kind=nm, model={k: str(v) for k, v in ob['model'].items()}), ob['name'], reproduced=False)
@@ -513,7 +566,7 @@ def run(rep):
     rep.end_kernel()
     polarity(rep)
     selectors(rep)
-    for w_ in (two_summit_witness(-1), two_summit_witness(+1)):
+    for w_ in (two_summit_witness(-1), two_summit_witness(+1), tiny_island_witness(-1), tiny_island_witness(+1)):
         bad, cls, detail = replay_selector(w_)
         rep.validated_runs(1)
         if bad:
